@@ -54,6 +54,7 @@ def gen(seed, i, tier):
         o["RenormalizeCharge"] = 1              # a limiter does not conserve charge exactly: renormalised every step the end state is strictly stationary
     if i % 4 == 2:
         o["alpha1"] = r.choice([5e-4, -5e-4])   # alpha0/8 (alpha0 is left at its default 4e-3 in these runs): changes the drift by 6e-5 of itself over the bunch - the equilibrium is the same
+    prog.sprinkle(core.Rng("c05nuisance", seed, i), o, cutoff_ok=True, padding_ok=(kind != "resistor"))      # options that must not matter to the equilibrium
     if i % 5 == 4:
         o["_steps_per_revolution"] = True           # step size given per revolution (overrides StepsPerTs, which is left at another value)
     return kind, o, e1, target
